@@ -17,6 +17,7 @@ JOBS = [
     ("py2v_diag.py", "Gen/DiagGen.v"),
     ("py2v_design.py", "Gen/DesignGen.v"),
     ("py2v_readbatch.py", "Gen/ReadBatchGen.v"),
+    ("py2v_samples.py", "Gen/SamplesGen.v"),
 ]
 if __name__ == "__main__":
     repo, coq = sys.argv[1], sys.argv[2]
